@@ -60,7 +60,7 @@ type Mat struct {
 	Name   string
 	B      []byte
 	Secret bool
-	BigInt bool // big-endian integer: encodings may add/strip leading zero bytes
+	BigInt bool   // big-endian integer: encodings may add/strip leading zero bytes
 	Field  string // proto field name that must carry this value in the wire form ("" = any bytes field)
 }
 
